@@ -21,6 +21,7 @@ import (
 	"flag"
 	"fmt"
 	"os"
+	"runtime/pprof"
 	"sort"
 	"strings"
 	"sync"
@@ -45,12 +46,12 @@ import (
 	tl "verif/harness/tracelib"
 )
 
-const (
-	errStale = -1
-	waitMax  = 300 * time.Second
-)
+const errStale = -1
 
-var rules = params.Rules{IsHomestead: true, IsEIP150: true, IsEIP155: true, IsEIP158: true, IsCancun: true}
+var waitMax = 300 * time.Second
+
+// pre-Cancun rules: an emptied contract account is deleted together with its storage (storage wiping)
+var rules = params.Rules{IsHomestead: true, IsEIP150: true, IsEIP155: true, IsEIP158: true}
 
 // ------------------------------------------------------------------ worlds
 
@@ -152,11 +153,14 @@ type env struct {
 	gate   *gates
 	dead   map[string]bool // roots that were live once and have been dropped
 	pend   map[string]int  // pending findings (TODO-KNOWN-FINDING F1)
+	where  string
+	f1desc map[common.Hash]bool // descendants keys already attributed to F1
 }
 
 func newEnv(keys []string, async bool, sum *tl.Summary, g *gates) *env {
 	e := &env{keys: keys, async: async, sum: sum, gate: g, root: map[string]common.Hash{}, wkey: map[common.Hash]string{},
-		worlds: map[string]world{}, refSR: map[string]common.Hash{}, dead: map[string]bool{}, pend: map[string]int{}}
+		worlds: map[string]world{}, refSR: map[string]common.Hash{}, dead: map[string]bool{}, pend: map[string]int{},
+		f1desc: map[common.Hash]bool{}}
 	g.mu.Lock()
 	g.async, g.allowance = async, 0
 	g.mu.Unlock()
@@ -509,17 +513,37 @@ func (e *env) compare(m *projJ, where string) {
 		wd[e.wk(x.Anc)] = fmt.Sprint(sorted(rs))
 	}
 	gd := e.pdb.VerifDescendants()
+	liveRoot := map[common.Hash]bool{d.Root: true}
+	tainted := map[common.Hash]bool{}
+	for _, l := range e.pdb.VerifLayers() {
+		liveRoot[l.Root] = true
+		if !l.Disk && (l.ChainStale || l.ChainDetached) {
+			tainted[l.Root] = true
+		}
+	}
+	extra := 0
 	for a, rs := range gd {
 		names := []string{}
+		allTainted := len(rs) > 0
 		for _, r := range rs {
 			names = append(names, name(r))
+			allTainted = allTainted && tainted[r]
+		}
+		if !liveRoot[a] && (allTainted || e.f1desc[a]) {
+			e.f1desc[a] = true // the entry stays behind even when its members get re-parented later
+			// TODO-KNOWN-FINDING F1: fillAncestors walks the object chain of a layer added on top of a
+			// sibling of the capped path, through the flattened layer into the stale disk layer, and
+			// records the new layer as descendant of that stale disk layer's root.
+			e.pend["F1: descendants records a layer under the root of a stale disk layer"]++
+			extra++
+			continue
 		}
 		if wd[name(a)] != fmt.Sprint(sorted(names)) {
 			bad("descendants[%s] = %v, specification %v", name(a), sorted(names), wd[name(a)])
 		}
 	}
-	if len(gd) != len(wd) {
-		bad("descendants has %d entries, specification %d", len(gd), len(wd))
+	if len(gd)-extra != len(wd) {
+		bad("descendants has %d entries, specification %d", len(gd)-extra, len(wd))
 	}
 }
 
@@ -781,13 +805,8 @@ func (e *env) capGroup(prev *projJ, steps []stepJ) bool {
 	if err != nil {
 		e.sum.Violate(fmt.Sprintf("cap(%s, %d) failed: %v", r.key(e.keys), n, err), tl.M{"act": begin})
 	}
-	e.gate.mu.Lock()
-	left := e.gate.allowance
-	e.gate.allowance = 0
-	e.gate.mu.Unlock()
-	if left != 0 {
-		e.sum.Violate(fmt.Sprintf("cap(%s, %d): specification schedules %d more flush completions than the implementation started", r.key(e.keys), n, left), tl.M{"act": begin})
-	}
+	// the flush goroutine of the last freeze may not have reached its gate yet: wait for the
+	// situation the specification describes before closing the allowance
 	last := steps[len(steps)-1].St
 	if e.async && last.Frozen.Present {
 		if last.Frozen.Done {
@@ -795,6 +814,13 @@ func (e *env) capGroup(prev *projJ, steps []stepJ) bool {
 		} else {
 			e.waitFlushParked()
 		}
+	}
+	e.gate.mu.Lock()
+	left := e.gate.allowance
+	e.gate.allowance = 0
+	e.gate.mu.Unlock()
+	if left != 0 {
+		e.sum.Violate(fmt.Sprintf("cap(%s, %d): specification schedules %d more flush completions than the implementation started", r.key(e.keys), n, left), tl.M{"act": begin})
 	}
 	e.sum.Count(fmt.Sprintf("Cap-n%d-full%v", n, full))
 	return true
@@ -804,7 +830,7 @@ func (e *env) waitFlushed() {
 	deadline := time.Now().Add(waitMax)
 	for !e.pdb.VerifDisk().FrozenDone {
 		if time.Now().After(deadline) {
-			tl.Fatal("flush did not complete within %v", waitMax)
+			tl.Fatal("flush did not complete within %v (%s)", waitMax, e.where)
 		}
 		time.Sleep(time.Millisecond)
 	}
@@ -814,7 +840,7 @@ func (e *env) waitFlushParked() {
 	deadline := time.Now().Add(waitMax)
 	for !e.gate.flushParked() {
 		if time.Now().After(deadline) {
-			tl.Fatal("flush goroutine did not reach its gate within %v", waitMax)
+			tl.Fatal("flush goroutine did not reach its gate within %v (%s)", waitMax, e.where)
 		}
 		time.Sleep(time.Millisecond)
 	}
@@ -885,7 +911,8 @@ func (e *env) readVal(rd *rdState, act map[string]any) {
 	select {
 	case r = <-rd.result:
 	case <-time.After(waitMax):
-		tl.Fatal("released reader did not finish within %v", waitMax)
+		pprof.Lookup("goroutine").WriteTo(os.Stderr, 1)
+		tl.Fatal("released reader did not finish within %v (%s)", waitMax, e.where)
 	}
 	e.checkRead(rd, act, r, "StateReader (parked between lookup and layer read)", false)
 	e.sum.Count("ReadVal")
@@ -914,17 +941,34 @@ func (e *env) checkRead(rd *rdState, act map[string]any, r rdResult, how string,
 
 func (e *env) replay(b *behaviour, idx int) {
 	readers := map[int]*rdState{}
+	defer func() {
+		// a reader still parked when the replay stops is released (its result is unconstrained)
+		for _, rd := range readers {
+			if rd.parked {
+				rd.parked = false
+				e.gate.release <- struct{}{}
+				<-rd.result
+			}
+		}
+	}()
 	steps := b.Steps
 	for i := 0; i < len(steps); i++ {
 		s := steps[i]
 		op := s.Act["op"].(string)
 		where := fmt.Sprintf("behaviour %d step %d (%s)", idx, i+1, op)
+		e.where = where
 		switch op {
 		case "Update":
 			e.update(s.Act)
 		case "CapNoop":
 			r := parseWorld(s.Act["r"])
 			n := int(s.Act["n"].(float64))
+			if e.tainted(e.rootOf(r)) {
+				// TODO-KNOWN-FINDING F1: on a chain through an already flattened layer cap does not stop
+				// where the specification's chain ends but commits the flattened layer again
+				e.pend["F1: cap/Commit of a chain through an already flattened layer (not executed)"]++
+				return
+			}
 			var err error
 			if n == 0 {
 				err = e.tdb.Commit(e.rootOf(r), false)
@@ -988,24 +1032,16 @@ func (e *env) replay(b *behaviour, idx int) {
 			return
 		}
 	}
-	// a reader still parked at the end is released (its result is unconstrained here)
-	for _, rd := range readers {
-		if rd.parked {
-			e.gate.release <- struct{}{}
-			<-rd.result
-		}
-	}
 }
 
 func runReplay(in string, sum *tl.Summary) {
 	var bs []behaviour
 	tl.ReadJSON(in, &bs)
-	g := newGates()
 	seen := map[string]bool{}
 	pend := map[string]int{}
 	for i := range bs {
 		b := &bs[i]
-		e := newEnv(sorted(b.Keys), b.Init.Async, sum, g)
+		e := newEnv(sorted(b.Keys), b.Init.Async, sum, newGates())
 		e.replay(b, i)
 		for k, n := range e.pend {
 			pend[k] += n
@@ -1044,12 +1080,25 @@ func actsOf(b *behaviour) []map[string]any {
 // at it fail and committing it breaks.
 func runFinding(sum *tl.Summary) {
 	g := newGates()
-	keys := []string{"a1", "a2"}
+	// four accounts whose hashed addresses start with different nibbles: adding one of them never
+	// moves the trie leaf of another
+	var keys []string
+	nib := map[byte]bool{}
+	for i := 1; len(keys) < 4; i++ {
+		k := fmt.Sprintf("a%d", i)
+		n := crypto.Keccak256(addrOf(k).Bytes())[0] >> 4
+		if !nib[n] {
+			nib[n] = true
+			keys = append(keys, k)
+		}
+	}
+	k1, k2, k3, k4 := keys[0], keys[1], keys[2], keys[3]
+	keys = sorted(keys)
 	e := newEnv(keys, false, sum, g)
 	defer e.close()
-	w := world{"a1": 0, "a2": 0}
-	next := func(p world, k string, v int) world {
-		nw := apply(p, world{k: v}, keys)
+	w := world{}
+	next := func(p world, d world) world {
+		nw := apply(p, d, keys)
 		st, err := state.New(e.rootOf(p), e.sdb)
 		if err != nil {
 			tl.Fatal("open %v: %v", p, err)
@@ -1063,11 +1112,12 @@ func runFinding(sum *tl.Summary) {
 		e.register(nw, root)
 		return nw
 	}
-	l1 := next(w, "a1", 1)
-	sib := next(l1, "a2", 999) // fork on L1
+	l0 := next(w, world{k3: 7, k4: 8}) // L0: two accounts nobody touches afterwards
+	l1 := next(l0, world{k1: 1})       // L1
+	sib := next(l1, world{k2: 999})    // fork on L1
 	cur := l1
-	for i := 2; i <= 129; i++ { // L2 .. L129 on L1: the 129th diff layer makes Update flatten L1
-		cur = next(cur, "a1", i)
+	for i := 2; i <= 129; i++ { // L2 .. L129 on L1: Update flattens L0, then L1 (128 diff layers are kept)
+		cur = next(cur, world{k1: i})
 	}
 	out := tl.M{}
 	_, err := e.pdb.StateReader(e.rootOf(sib))
@@ -1076,12 +1126,34 @@ func runFinding(sum *tl.Summary) {
 	if err != nil {
 		out["open"] = err.Error()
 	} else {
-		v, err := e.fast(h, "a2")
-		out["fast read a2"] = fmt.Sprintf("%d %v", v, err)
-		v, err = e.slow(h, "a1")
-		out["trie read a1"] = fmt.Sprintf("%d %v", v, err)
+		v, err := e.fast(h, k2)
+		out["fast read of the account changed in the sibling"] = fmt.Sprintf("%d %v", v, err)
+		v, err = e.fast(h, k3)
+		out["fast read of an old account (sibling)"] = fmt.Sprintf("%d %v", v, err)
+		v, err = e.slow(h, k3)
+		out["trie read a3 (sibling)"] = fmt.Sprintf("%d %v", v, err)
+		if hh, err2 := e.open(cur); err2 == nil {
+			v2, err2 := e.slow(hh, k3)
+			out["trie read a3 (head)"] = fmt.Sprintf("%d %v", v2, err2)
+		}
 		if err != nil {
 			e.pend["F1: node read at available sibling root fails with stale error"]++
+		}
+	}
+	// F1, wrong data: a layer added on top of the sibling is recorded (fillAncestors walks the
+	// stale object chain) as descendant of the root of the stale disk layer L0.  When a layer with
+	// that same root is added again (here: undoing L1's change on top of the new disk layer), the
+	// lookup index takes it for an ancestor of the sibling's child.
+	child := next(sib, world{k2: 5}) // (touching an account older than L1 fails already: its trie nodes cannot be read)
+	again := next(l1, world{k1: 0}) // same state, hence same root, as L0
+	out["re-added root equals L0 root"] = fmt.Sprint(e.rootOf(again) == e.rootOf(l0))
+	if hc, err := e.open(child); err != nil {
+		out["open(child of sibling)"] = err.Error()
+	} else {
+		v, err := e.fast(hc, k1)
+		out["StateReader(child of sibling) account changed in L1 (state holds 1)"] = fmt.Sprintf("%d %v", v, err)
+		if err == nil && v != child[k1] {
+			e.pend["F1: StateReader at the child of a sibling returns another state's account"]++
 		}
 	}
 	func() {
@@ -1107,6 +1179,9 @@ func main() {
 	in := flag.String("in", "", "behaviours json")
 	out := flag.String("out", "summary.json", "summary output")
 	flag.Parse()
+	if v := tl.EnvInt("C16_WAIT_S", 0); v > 0 {
+		waitMax = time.Duration(v) * time.Second
+	}
 	log.SetDefault(log.NewLogger(log.DiscardHandler()))
 	seed := int64(tl.EnvInt("VERIF_SEED", 1))
 	sum := tl.NewSummary("c16", *mode, seed)
@@ -1117,6 +1192,15 @@ func main() {
 		runFinding(sum)
 	default:
 		tl.Fatal("bad mode")
+	}
+	if os.Getenv("C16_STRICT") == "1" {
+		// no pending handling: every manifestation of F1 is a violation
+		if pend, ok := sum.Extra["pending_findings"].(map[string]int); ok {
+			for k, n := range pend {
+				sum.Violate(fmt.Sprintf("%s [x%d]", k, n), tl.M{"finding": "F1", "detail": sum.Extra["finding_F1"]})
+			}
+			sum.Extra["pending_findings"] = map[string]int{}
+		}
 	}
 	sum.Write(*out)
 	if len(sum.Violations) > 0 {
